@@ -1615,3 +1615,350 @@ def ident2_C15(c2, ans):
 
 PROPS['C15'] = dict(roots=[r'^TwoFloat\.(ln|ln_1p|log|log2|log10)$'], gen=gen_C15, chk=chk_C15, n_quick=150, n_thorough=8000,
                     followups=[(ident_C15, chk_ident_C15, True), (ident2_C15, chk_want, True)])
+
+# ================================================================================================ C16 sin cos tan
+
+def gen_C16(r, n):
+    c = Cases()
+    m = mp()
+    def add(x):
+        for fn in ('sin', 'cos', 'tan', 'sin_cos'):
+            c.add('TwoFloat.%s %s' % (fn, w2(x)), kind=fn, x=x)
+    pi4 = mpf_to_fr(m.pi / 4)
+    for _ in range(n):
+        k = r.below(8)
+        if k < 3:
+            # both sides of a multiple of pi/4 up to 2^20
+            j = r.rng(-2**r.rng(1, 22), 2**r.rng(1, 22))
+            q = pi4 * j
+            if abs(q) > 2**20:
+                q = pi4 * (j % 1000)
+            d = Fr(r.rng(-2**20, 2**20), 2 ** (20 + r.rng(1, 80)))
+            add(tf_of_fr(q + d))
+        elif k < 5:
+            add(log_uniform_tf(r, -300, 0))     # log-uniform towards 0
+        elif k < 7:
+            q = Fr(r.rng(-2**40, 2**40), 2**20)
+            add(tf_of_fr(q))
+        else:
+            add(log_uniform_tf(r, -5, 20))
+    for z in ((0.0, 0.0), (-0.0, 0.0)):
+        for fn in ('sin', 'cos', 'tan'):
+            c.add('TwoFloat.%s %s' % (fn, w2(z)), kind='zero_' + fn, x=z)
+    for bad in ((math.nan, 0.0), (math.inf, 0.0), (1.0, 1.0), (1.0, math.nan), (-math.inf, -math.inf)):
+        for fn in ('sin', 'cos', 'tan'):
+            c.add('TwoFloat.%s %s' % (fn, w2(bad)), kind='invalid_arg', x=bad)
+    return c
+
+def chk_C16(c, ans):
+    out = []
+    m = mp()
+    got = {}
+    for i, (ln, mt, a) in enumerate(zip(c.lines, c.meta, ans)):
+        if a == 'bad-op':
+            out.append(fail(i, 'no-answer', a)); continue
+        if a == 'PANIC':
+            if mt['kind'] != 'invalid_arg':
+                out.append(fail(i, 'no-panic', 'panicked on a valid argument'))
+            continue
+        k = mt['kind']
+        if k == 'invalid_arg':
+            if fp.is_valid(*words(a)):
+                out.append(fail(i, 'invalid_arg_invalid_result', a))
+            continue
+        if k.startswith('zero_'):
+            hl = words(a)
+            want = (1.0, 0.0) if k == 'zero_cos' else (0.0, 0.0)
+            if not (hl[0] == want[0] and hl[1] == want[1]):
+                out.append(fail(i, k, a))
+            continue
+        x = mt['x']
+        v = mpv(*x)
+        if abs(v) > P2(20):
+            continue
+        got[(k, w2(x))] = a
+        if k == 'sin':
+            t = m.sin(v)
+            err_fail(i, out, 'sin_abs', words(a), t, P2(-66))
+            if abs(v) <= m.pi / 4:
+                err_fail(i, out, 'sin_rel', words(a), t, abs(t) * P2(-64))
+        elif k == 'cos':
+            err_fail(i, out, 'cos_abs', words(a), m.cos(v), P2(-66))
+        elif k == 'tan':
+            t = m.tan(v)
+            bound = P2(-50) * max(abs(t), P2(-30)) + P2(-80) * (1 + t * t)
+            err_fail(i, out, 'tan_bound', words(a), t, bound)
+        elif k == 'sin_cos':
+            s_, c_ = got.get(('sin', w2(x))), got.get(('cos', w2(x)))
+            if s_ is not None and c_ is not None and a != s_ + ' ' + c_:
+                out.append(fail(i, 'sin_cos_eq', 'sin_cos=%s but (sin, cos)=(%s, %s)' % (a, s_, c_)))
+    return out
+
+PROPS['C16'] = dict(roots=[r'^TwoFloat\.(sin|cos|tan|sin_cos)$'], gen=gen_C16, chk=chk_C16, n_quick=300, n_thorough=15000)
+
+# ================================================================================================ C17 inverse trig
+
+def gen_C17(r, n):
+    c = Cases()
+    brk = [Fr(7, 16), Fr(11, 16), Fr(19, 16), Fr(39, 16), Fr(1, 2), Fr(1)]
+    for _ in range(n):
+        k = r.below(8)
+        if k < 3:
+            x = tf_of_fr(Fr(r.rng(-2**40, 2**40), 2**40))
+        elif k < 5:
+            x = tf_near(r, r.choice(brk) * r.choice([1, -1]), 4)
+            if abs(V(*x)) > 1:
+                x = tf_of_fr(Fr(r.rng(-2**40, 2**40), 2**40))
+        else:
+            x = log_uniform_tf(r, -200, 0)
+        if abs(V(*x)) <= 1:
+            c.add('TwoFloat.asin %s' % w2(x), kind='asin', x=x)
+            c.add('TwoFloat.acos %s' % w2(x), kind='acos', x=x)
+        y = r.choice([log_uniform_tf(r, -100, 60), tf_near(r, r.choice(brk[:4]) * r.choice([1, -1]), 4), tf_of_fr(Fr(r.rng(-2**24, 2**24), 2**20))])
+        c.add('TwoFloat.atan %s' % w2(y), kind='atan', x=y)
+        a, b = log_uniform_tf(r, -30, 30), log_uniform_tf(r, -30, 30)
+        c.add('TwoFloat.atan2 %s %s' % (w2(a), w2(b)), kind='atan2', y=a, x=b)
+        out_ = tf_of_fr((1 + abs(Fr(r.rng(1, 2**30), 2 ** r.rng(1, 60)))) * r.choice([1, -1]))
+        c.add('TwoFloat.asin %s' % w2(out_), kind='dom', x=out_)
+        c.add('TwoFloat.acos %s' % w2(out_), kind='dom', x=out_)
+    Z = [(0.0, 0.0), (-0.0, 0.0)]
+    for zy in Z:
+        for x in [(1.0, 0.0), (-1.0, 0.0), (3.5, 1e-20), (-2.0 ** -20, 0.0)]:
+            c.add('TwoFloat.atan2 %s %s' % (w2(zy), w2(x)), kind='axis', y=zy, x=x)
+    for zx in Z:
+        for y in [(1.0, 0.0), (-1.0, 0.0), (7.25, -1e-18)]:
+            c.add('TwoFloat.atan2 %s %s' % (w2(y), w2(zx)), kind='axis', y=y, x=zx)
+    c.add('TwoFloat.asin %s' % w2((0.0, 0.0)), kind='zero')
+    c.add('TwoFloat.atan %s' % w2((0.0, 0.0)), kind='zero')
+    c.add('TwoFloat.acos %s' % w2((1.0, 0.0)), kind='zero')
+    c.add('TwoFloat.asin %s' % w2((1.0, 0.0)), kind='pt', want='pi/2')
+    c.add('TwoFloat.asin %s' % w2((-1.0, 0.0)), kind='pt', want='-pi/2')
+    c.add('TwoFloat.acos %s' % w2((-1.0, 0.0)), kind='pt', want='pi')
+    return c
+
+PI_W = '400921fb54442d18 3ca1a62633145c07'
+PI2_W = '3ff921fb54442d18 3c91a62633145c07'
+def negw(w):
+    h, l = w.split()
+    return '%s %s' % (hx(-unhx(h)), hx(-unhx(l)))
+
+def chk_C17(c, ans):
+    out = []
+    m = mp()
+    for i, (ln, mt, a) in enumerate(zip(c.lines, c.meta, ans)):
+        if a == 'bad-op':
+            out.append(fail(i, 'no-answer', a)); continue
+        if a == 'PANIC':
+            out.append(fail(i, 'no-panic', 'panicked on a valid argument')); continue
+        k = mt['kind']
+        hl = words(a)
+        if k == 'asin':
+            t = m.asin(mpv(*mt['x']))
+            err_fail(i, out, 'asin_abs', hl, t, P2(-45))
+            err_fail(i, out, 'asin_rel', hl, t, abs(t) * P2(-43))
+        elif k == 'acos':
+            err_fail(i, out, 'acos_abs', hl, m.acos(mpv(*mt['x'])), P2(-45))
+        elif k == 'atan':
+            v = mpv(*mt['x'])
+            if abs(v) <= P2(60):
+                t = m.atan(v)
+                err_fail(i, out, 'atan_rel', hl, t, abs(t) * P2(-70))
+        elif k == 'atan2':
+            t = m.atan2(mpv(*mt['y']), mpv(*mt['x']))
+            err_fail(i, out, 'atan2_rel', hl, t, abs(t) * P2(-69))
+        elif k == 'dom':
+            if fp.is_valid(*hl):
+                out.append(fail(i, 'asin_acos_domain', a))
+        elif k == 'zero':
+            if not (hl[0] == 0 and hl[1] == 0):
+                out.append(fail(i, 'inverse_trig_zero', a))
+        elif k == 'pt':
+            t = {'pi/2': m.pi / 2, '-pi/2': -m.pi / 2, 'pi': m.pi}[mt['want']]
+            err_fail(i, out, 'inverse_trig_point', hl, t, P2(-100))
+        elif k == 'axis':
+            y, x = mt['y'], mt['x']
+            if y[0] == 0:
+                neg_y = math.copysign(1.0, y[0]) < 0
+                if x[0] > 0:
+                    ok = hl[0] == 0 and hl[1] == 0
+                else:
+                    ok = a == (negw(PI_W) if neg_y else PI_W)
+            else:
+                ok = a == (PI2_W if y[0] > 0 else negw(PI2_W))
+            if not ok:
+                out.append(fail(i, 'atan2_axis', 'atan2(%s, %s) = %s' % (w2(y), w2(x), a)))
+    return out
+
+PROPS['C17'] = dict(roots=[r'^TwoFloat\.(asin|acos|atan|atan2)$'], gen=gen_C17, chk=chk_C17, n_quick=300, n_thorough=15000)
+
+# ================================================================================================ C18 hyperbolic
+
+def gen_C18(r, n):
+    c = Cases()
+    for _ in range(n):
+        s = r.choice([1, -1])
+        k = r.below(4)
+        x = log_uniform_tf(r, -40, 10, sign=s) if k else tf_of_fr(Fr(r.rng(-600 * 2**20, 600 * 2**20), 2**20))
+        if abs(V(*x)) <= 600:
+            for fn in ('cosh', 'sinh', 'tanh'):
+                c.add('TwoFloat.%s %s' % (fn, w2(x)), kind=fn, x=x)
+        y = log_uniform_tf(r, -40, 60, sign=s)
+        c.add('TwoFloat.asinh %s' % w2(y), kind='asinh', x=y)
+        z = tf_of_fr((1 + abs(Fr(r.rng(1, 2**30), 2 ** r.rng(0, 50)))) * Fr(2) ** r.choice([0, 0, 0, r.rng(0, 59)]))
+        if 1 < V(*z) <= 2**60:
+            c.add('TwoFloat.acosh %s' % w2(z), kind='acosh', x=z)
+        w = log_uniform_tf(r, -40, 0, sign=s) if r.below(2) else tf_of_fr(Fr(r.rng(-2**30 + 2**20, 2**30 - 2**20), 2**30))
+        if abs(V(*w)) <= 1 - Fr(1, 2**10):
+            c.add('TwoFloat.atanh %s' % w2(w), kind='atanh', x=w)
+        lo = tf_of_fr(Fr(r.rng(-2**30, 2**30 - 1), 2**30) * r.choice([1, 2**r.rng(0, 20)]))
+        if V(*lo) < 1:
+            c.add('TwoFloat.acosh %s' % w2(lo), kind='dom', x=lo)
+        big = tf_of_fr((1 + abs(Fr(r.rng(0, 2**30), 2 ** r.rng(0, 40)))) * s)
+        c.add('TwoFloat.atanh %s' % w2(big), kind='dom', x=big)
+    for fn in ('sinh', 'tanh', 'asinh', 'atanh'):
+        c.add('TwoFloat.%s %s' % (fn, w2((0.0, 0.0))), kind='zero')
+    c.add('TwoFloat.acosh %s' % w2((1.0, 0.0)), kind='zero')
+    c.add('TwoFloat.cosh %s' % w2((0.0, 0.0)), kind='one')
+    return c
+
+def chk_C18(c, ans):
+    out = []
+    m = mp()
+    for i, (ln, mt, a) in enumerate(zip(c.lines, c.meta, ans)):
+        if a == 'bad-op':
+            out.append(fail(i, 'no-answer', a)); continue
+        if a == 'PANIC':
+            out.append(fail(i, 'no-panic', 'panicked on a valid argument')); continue
+        k = mt['kind']
+        hl = words(a)
+        if k == 'cosh':
+            t = m.cosh(mpv(*mt['x'])); err_fail(i, out, 'cosh_rel', hl, t, t * P2(-100))
+        elif k in ('sinh', 'tanh', 'atanh'):
+            t = getattr(m, k)(mpv(*mt['x'])); err_fail(i, out, k + '_bound', hl, t, abs(t) * P2(-100) + P2(-101))
+        elif k == 'asinh':
+            t = m.asinh(mpv(*mt['x'])); err_fail(i, out, 'asinh_bound', hl, t, abs(t) * P2(-100) + P2(-98))
+        elif k == 'acosh':
+            t = m.acosh(mpv(*mt['x'])); err_fail(i, out, 'acosh_bound', hl, t, P2(-100) * (t + 1 / t))
+        elif k == 'dom':
+            if fp.is_valid(*hl):
+                out.append(fail(i, 'hyperbolic_domain', a))
+        elif k == 'zero':
+            if not (hl[0] == 0 and hl[1] == 0):
+                out.append(fail(i, 'hyperbolic_zero', a))
+        elif k == 'one':
+            if not (hl == (1.0, 0.0)):
+                out.append(fail(i, 'cosh_zero', a))
+    return out
+
+PROPS['C18'] = dict(roots=[r'^TwoFloat\.(cosh|sinh|tanh|acosh|asinh|atanh)$'], gen=gen_C18, chk=chk_C18, n_quick=250, n_thorough=12000)
+
+
+# ------------------------------------------------------------------------------------------------ corpus lines -> meta
+def corpus_unary(line):
+    w = line.split()
+    fn = w[0].split('.')[-1]
+    if len(w) == 3:
+        return dict(kind=fn, x=(unhx(w[1]), unhx(w[2])))
+    if len(w) == 5 and fn == 'powf':
+        x, y = (unhx(w[1]), unhx(w[2])), (unhx(w[3]), unhx(w[4]))
+        return dict(kind='powf_neg_int' if x[0] < 0 else 'powf', x=x, y=y)
+    return None
+for _p in ('C14', 'C15', 'C16', 'C17', 'C18'):
+    PROPS[_p]['corpus_meta'] = corpus_unary
+
+# ================================================================================================ C20 text output and serde
+
+def gen_C20(r, n):
+    c = Cases()
+    def val():
+        k = r.below(8)
+        if k == 0:
+            h = f_in(r, -1000, 1000, zero=False); return (h, r.choice([0.0, -0.0]))
+        if k == 1:
+            h = fp.mant_exp(r, r.rng(-1021, -960)); return (h, fp.fbits(r.rng(1, 2**20)) * r.choice([1, -1]))     # subnormal low word
+        if k == 2:
+            return (r.choice([0.0, -0.0]), r.choice([0.0, -0.0]))
+        if k == 3:
+            return tf_in(r, r.choice([-1000, 300]), r.choice([-300, 1000]) if r.below(2) else 1000)
+        return tf_in(r, -40, 70)
+    for _ in range(n):
+        t = val()
+        if not fp.is_valid(*t):
+            continue
+        for tr in ('d', 'e', 'E'):
+            for plus in (0, 1):
+                for prec in (-1, r.rng(0, 40)):
+                    c.add('fmt %s %d %d %s' % (tr, plus, prec, w2(t)), kind='fmt', impl_only=True, t=t, tr=tr, plus=plus, prec=prec)
+                    c.add('render %s %d %d %s' % (tr, plus, prec, hx(t[0])), kind='rhi', impl_only=True)
+                    c.add('render %s 0 %d %s' % (tr, prec, hx(abs(t[1]))), kind='rlo', impl_only=True)
+        c.add('ser %s' % w2(t), kind='ser', t=t)
+        c.add('de_seq 2 %s' % w2(t), kind='de', t=t, form='seq', want='ok')
+        c.add('de_map 2 hi %s lo %s' % (hx(t[0]), hx(t[1])), kind='de', t=t, form='map', want='ok')
+        c.add('de_map 2 lo %s hi %s' % (hx(t[1]), hx(t[0])), kind='de', t=t, form='map', want='ok')
+    for _ in range(n):
+        # arbitrary word pairs, overlapping or not, to the deserializer
+        p = fp.any_tf(r) if r.below(2) else (fp.any_f64(r), fp.any_f64(r))
+        want = 'ok' if (fp.isfin(p[0]) and p[0] + p[1] == p[0]) else 'err'
+        c.add('de_seq 2 %s' % w2(p), kind='de', t=p, want=want)
+        c.add('de_map 2 hi %s lo %s' % (hx(p[0]), hx(p[1])), kind='de', t=p, want=want)
+        c.add('de_map 2 lo %s hi %s' % (hx(p[1]), hx(p[0])), kind='de', t=p, want=want)
+        t = tf_in(r, -100, 100)
+        k = r.below(6)
+        bad = ['de_seq 1 %s' % hx(t[0]), 'de_seq 0', 'de_seq 3 %s %s' % (w2(t), hx(0.0)), 'de_map 1 hi %s' % hx(t[0]), 'de_map 1 lo %s' % hx(t[1]),
+               'de_map 0', 'de_map 2 hi %s hi %s' % (hx(t[0]), hx(t[0])), 'de_map 3 hi %s lo %s lo %s' % (hx(t[0]), hx(t[1]), hx(t[1])),
+               'de_map 3 hi %s lo %s extra %s' % (hx(t[0]), hx(t[1]), hx(0.0)), 'de_map 2 high %s lo %s' % (hx(t[0]), hx(t[1])),
+               'de_map 3 lo %s lo %s hi %s' % (hx(t[1]), hx(t[1]), hx(t[0]))]
+        c.add(r.choice(bad), kind='de', t=t, want='err')
+    return c
+
+def chk_C20(c, ans):
+    out = []
+    i = 0
+    n = len(c.lines)
+    while i < n:
+        m, a = c.meta[i], ans[i]
+        if a in ('PANIC', 'bad-op'):
+            out.append(fail(i, 'no-panic', a)); i += 1; continue
+        if m['kind'] == 'fmt':
+            full = a.strip('"')
+            rhi_s, rhi_back = ans[i + 1].rsplit(' ', 1)
+            rlo_s, rlo_back = ans[i + 2].rsplit(' ', 1)
+            rhi_s, rlo_s = rhi_s.strip('"'), rlo_s.strip('"')
+            t = m['t']
+            sign = '-' if math.copysign(1.0, t[1]) < 0 else '+'
+            want = '%s %s %s' % (rhi_s, sign, rlo_s)
+            m['rhi'], m['rlo'] = rhi_s, rlo_s
+            if full != want:
+                out.append(fail(i, 'fmt_shape', 'got "%s" want "%s"' % (full, want)))
+            if m['prec'] < 0:
+                if rhi_back != hx(t[0]) or rlo_back != hx(abs(t[1])):
+                    out.append(fail(i, 'fmt_parse_back', '"%s" parses to %s / %s' % (full, rhi_back, rlo_back)))
+            if m['plus'] and not full[:1] in '+-':
+                out.append(fail(i, 'fmt_plus_sign', full))
+            i += 3; continue
+        if m['kind'] == 'ser':
+            t = m['t']
+            if a != 'struct TwoFloat 2 hi=%s lo=%s' % (hx(t[0]), hx(t[1])):
+                out.append(fail(i, 'ser_shape', a))
+        elif m['kind'] == 'de':
+            t = m['t']
+            if m['want'] == 'ok':
+                if a != 'Ok(%s)' % w2(t):
+                    out.append(fail(i, 'de_ser_roundtrip' if m.get('form') else 'de_accepts_valid', 'got %s' % a))
+            else:
+                if a.startswith('Ok'):
+                    hl = words(a)
+                    out.append(fail(i, 'de_rejects', 'accepted: %s' % a))
+        i += 1
+    return out
+
+def shape_C20(c, ans):
+    """model side of the formatting shape: Hand.fmtShape on the renderings the implementation's core::fmt produced"""
+    c2 = Cases()
+    for ln, m, a in zip(c.lines, c.meta, ans):
+        if m['kind'] == 'fmt' and 'rhi' in m and ' ' not in m['rhi'] and ' ' not in m['rlo']:
+            c2.add('fmt_shape %s %s %s' % (hx(m['t'][1]), m['rhi'], m['rlo']), want=a, clause='fmt_model_correspondence')
+    return c2
+
+PROPS['C20'] = dict(roots=[r'^convert\.impl_TryFrom_tup_f64_f64_for_TwoFloat', r'^base\.no_overlap$'], gen=gen_C20, chk=chk_C20,
+                    n_quick=150, n_thorough=5000, harness='serde', hand_sources=['src/format.rs', 'src/serialization.rs'], followups=[(shape_C20, chk_want, False, 'model')])
